@@ -406,22 +406,25 @@ impl<'a> VisitMut for Rewriter<'a> {
         if let Some(r) = replaced {
             *e = r;
         }
-        // R4': `X[a..].iter()` ⇒ `vx_iter_from(&X, a)`
+        // R4': `X[a..].iter()` ⇒ `vx_iter_from(&X, a)`;  `X[a..].fill(v)` ⇒ `vx_fill_from(&mut X, a, v)`
         let mut r4p: Option<Expr> = None;
         if let Expr::MethodCall(m) = e {
-            if m.method == "iter" && m.args.is_empty() {
-                if let Expr::Index(ix) = &*m.receiver {
-                    if let Expr::Range(r) = &*ix.index {
-                        if let (Some(a), None, RangeLimits::HalfOpen(_)) = (&r.start, &r.end, &r.limits) {
-                            let x = &ix.expr;
+            if let Expr::Index(ix) = &*m.receiver {
+                if let Expr::Range(r) = &*ix.index {
+                    if let (Some(a), None, RangeLimits::HalfOpen(_)) = (&r.start, &r.end, &r.limits) {
+                        let x = &ix.expr;
+                        if m.method == "iter" && m.args.is_empty() {
                             r4p = Some(parse_quote! { vx_iter_from(&#x, #a) });
+                        } else if m.method == "fill" && m.args.len() == 1 {
+                            let v = &m.args[0];
+                            r4p = Some(parse_quote! { vx_fill_from(&mut #x, #a, #v) });
                         }
                     }
                 }
             }
         }
         if let Some(r) = r4p {
-            self.fired.push("R4'-tail-slice-iter".into());
+            self.fired.push("R4'-tail-slice".into());
             *e = r;
         }
         // method renames (R4) and effect threading (R6)
